@@ -329,8 +329,10 @@ def scan_index(fn, name="i"):
 
 
 def bool_flag_with_both_constants(fn, l):
+    """a flag: a `mut` bool that is assigned both constants (an explaining variable bound once — `let both = a && b;` — gets
+    both constants from the short-circuit as well, but it is not `mut`)"""
     vals = {v for _, v in prim.const_assigns_to(fn, l)}
-    return fn.local_ty(l) == "bool" and vals == {True, False}
+    return fn.local_ty(l) == "bool" and vals == {True, False} and bool(fn.locals[l].get("mut"))
 
 
 def quit_flag_local(df):
@@ -353,7 +355,7 @@ def token_at_offset(fn, o):
     """k when `o` is the command-line token k places after the scan position — `args[i + k]`, or the same token obtained
     with `args.get(i + k)` (its Some payload, possibly handed on through Ok/`?`) — else None; 0 for `args[i]`"""
     s = prim.renorm(prim.expand_single_def_vars(fn, o, depth=5)).strip()
-    for _ in range(4):
+    for _ in range(7):
         if s.k == "field" and str(s.a) == "0" and s.kids and s.kids[0].strip().k == "variant":
             s = s.kids[0].strip()
         if s.k == "variant" and str(s.a) in ("Some", "Ok", "Continue") and s.kids:
@@ -361,6 +363,9 @@ def token_at_offset(fn, o):
             continue
         if s.k == "agg" and str(s.a).endswith(("Result::Ok", "Option::Some")) and len(s.kids) == 1:
             s = s.kids[0].strip()
+            continue
+        if s.k == "call" and s.a["name"] in ("copied", "cloned", "ok_or", "ok_or_else", "as_deref") and s.kids and str(s.a.get("callee", "")).startswith(("std::option::Option", "core::option::Option")):
+            s = s.kids[0].strip()          # `args.get(k).copied().ok_or_else(..)?`: the same token, or the failure
             continue
         break
     idx = None
@@ -384,7 +389,7 @@ def _index_core(fn, o):
     """(cursor-variable leaf, constant offset) of the command-line token `o` denotes — `args[i + k]`, `args[i - k]`,
     `args.get(i + k)`'s payload (possibly handed on through Ok/`?`) — else None"""
     s = prim.renorm(prim.expand_single_def_vars(fn, o, depth=5)).strip()
-    for _ in range(4):
+    for _ in range(7):
         if s.k == "field" and str(s.a) == "0" and s.kids and s.kids[0].strip().k == "variant":
             s = s.kids[0].strip()
         if s.k == "variant" and str(s.a) in ("Some", "Ok", "Continue") and s.kids:
@@ -392,6 +397,9 @@ def _index_core(fn, o):
             continue
         if s.k == "agg" and str(s.a).endswith(("Result::Ok", "Option::Some")) and len(s.kids) == 1:
             s = s.kids[0].strip()
+            continue
+        if s.k == "call" and s.a["name"] in ("copied", "cloned", "ok_or", "ok_or_else", "as_deref") and s.kids and str(s.a.get("callee", "")).startswith(("std::option::Option", "core::option::Option")):
+            s = s.kids[0].strip()          # `args.get(k).copied().ok_or_else(..)?`: the same token, or the failure
             continue
         break
     idx = None
